@@ -12,4 +12,7 @@ CHECKS = {
                   "non-ASCII characters are the representatives é, €, 😀 (2,3,4 bytes); ASCII characters are symbolic over 0x20..0x7E"],
   "outside": ["documents longer than the bound", "JSON-RPC decoding"],
  },
+ "SMOKE": {
+  "harnesses": [{"pkg": "server", "fn": "VerifSmoke", "quick": {"args": [], "reach": ["smoke.end"]}}],
+ },
 }
